@@ -92,7 +92,8 @@ func HarnessSelf_models() {
 		chk(id+"AllIdx", fmt.Sprintf("%v", re.FindAllStringIndex(s, -1)) == fmt.Sprintf("%v", re.FindAllStringIndex(c, -1)))
 		chk(id+"Repl", re.ReplaceAllString(s, "<$1|${0}>") == re.ReplaceAllString(c, "<$1|${0}>"))
 		chk(id+"ReplLit", re.ReplaceAllLiteralString(s, "#") == re.ReplaceAllLiteralString(c, "#"))
-		chk(id+"ReplFunc", re.ReplaceAllStringFunc(s, strings.ToUpper) == re.ReplaceAllStringFunc(c, strings.ToUpper))
+		wrap := func(m string) string { return "<" + m + ">" }
+		chk(id+"ReplFunc", re.ReplaceAllStringFunc(s, wrap) == re.ReplaceAllStringFunc(c, wrap))
 		chk(id+"Split", strings.Join(re.Split(s, -1), "|") == strings.Join(re.Split(c, -1), "|"))
 	}
 	vCover("self.checked")
